@@ -171,8 +171,15 @@ class Field(object):
 
     def pack(self, value, psize=0):
         if self.count > 0:
-            return b"".join([self.type().pack(v,psize) for v in value])
-        return self.type.pack(value,psize)
+            return b"".join([self._pack1(v,psize) for v in value])
+        return self._pack1(value,psize)
+
+    def _pack1(self, value, psize=0):
+        # an unpacked structure packs itself; the value of a typedef'd
+        # raw type is packed by a fresh instance of the type:
+        if isinstance(value,StructCore):
+            return value.pack(None,psize)
+        return self.type().pack([value],psize)
 
     def copy(self,obj=None):
         cls = self.__class__
